@@ -44,6 +44,8 @@ package ice
 //@   props C06 C03
 //@   requires C03 selected-pair-is-valid: istype(a.selectedPair, *CandidatePair) && a.selectedPair.payload != nil ==> cast(a.selectedPair.payload, *CandidatePair).state == CandidatePairStateSucceeded || a.userBindingRequestHandler != nil
 //@   loop 1 invariant C03 selected-pair-stays-valid: istype(a.selectedPair, *CandidatePair) && a.selectedPair.payload != nil ==> cast(a.selectedPair.payload, *CandidatePair).state == CandidatePairStateSucceeded || a.userBindingRequestHandler != nil
+//@   requires C06 supersession-replaces-by-a-different-candidate: newRemote != oldRemote
+//@   loop 1 invariant C06 index-in-range: rangeindex + 1 <= len(a.checklist)
 //@   loop 1 invariant C06 list-header-stable: a.checklist == old(a.checklist) && a.pairsByID == old(a.pairsByID)
 //@   site call setSelectedPair#1 assert C03 C06 reselects-only-the-superseded-selected-pair: a.getSelectedPair() == pair && arg1 == replacement && pair.Remote == oldRemote
 //@   site call replacePairRemote#1 assert C06 replaces-only-pairs-of-the-old-remote: arg0 == pair && pair.Remote == oldRemote && arg1 == newRemote
